@@ -172,5 +172,6 @@ def run_shard(spec, acc):
   if spec.get('witness'):
     return globals()['witness_' + spec['witness']](acc)
   h = histories.History(acc, spec['hseed'], [ScratchMonitor(spec.get('every', 4))], spec['steps'], weights=WEIGHTS,
-                        flags={'bundle_multi': 0.25, 'max_rows': 10, 'formula_off': ('self_ref', 'cycle', 'list_keys')})
+                        flags={'bundle_multi': 0.25, 'max_rows': 10, 'formula_off': ('self_ref', 'cycle', 'list_keys')},
+                        avoid_open_triggers=False)
   h.run()
